@@ -153,6 +153,13 @@ def handle (op : String) (args : List Sexp) : R Sexp := do
         Spec.c07Clauses { p := p, subject := k, attrs := attrs } info ++ Spec.c05CsrClauses info ++
         Spec.c01Clauses k.alg der (fun _ => none) ++
         Spec.clause "C04:canonical-der" (Spec.csrCanonical der)))
+  | "spec-csr-issue", [csr, cert] => do
+    -- the issued certificate against the request it was issued from (C06), artefacts only
+    let csr ← csr.asBytes
+    let cert ← cert.asBytes
+    match Spec.splitSigned cert with
+    | none => pure (failList ["C01:outer-structure"])
+    | some (tbs, _, _) => pure (failList (Spec.c06IssueClauses csr tbs))
   | "spec-crl", [p, i, der] => do
     let p ← decCrlParams p
     let i ← decIssuerOnly i
